@@ -32,6 +32,11 @@ func NewRetryHandler(discoveryService ports.DiscoveryService, logger logger.Styl
 	}
 }
 
+// ErrEndpointSkipped marks an attempt that was not made because the endpoint must not be
+// contacted right now (for example its circuit breaker is open). The retry loop moves on to the
+// next candidate without treating the endpoint as failed at connection level.
+var ErrEndpointSkipped = errors.New("endpoint skipped")
+
 // ProxyFunc defines the signature for endpoint proxy implementations
 type ProxyFunc func(ctx context.Context, w http.ResponseWriter, r *http.Request, endpoint *domain.Endpoint, stats *ports.RequestStats) error
 
@@ -85,6 +90,12 @@ func (h *RetryHandler) ExecuteWithRetry(
 
 		if lastErr == nil {
 			return nil
+		}
+
+		if errors.Is(lastErr, ErrEndpointSkipped) {
+			// Nothing was sent to this endpoint; try the remaining candidates
+			availableEndpoints = h.removeFailedEndpoint(availableEndpoints, endpoint)
+			continue
 		}
 
 		if !IsConnectionError(lastErr) {
